@@ -1,11 +1,12 @@
 //! part 2: initial-solution round trip. pragen problem -> solve (inside `isolated(1, …)`, reproducible) ->
 //! `write_pragmatic` -> real `read_init_solution` -> job activities with place index per (vehicle, shift) and the
-//! customer unassigned set, before and after.
+//! unassigned set, before and after. `impl.trace` (the solver's core solution) is the input of the Lean model of
+//! writer + reader; `impl.written` and `impl.reread` are compared with the model's.
 
 use serde_json::{Value, json};
 use std::io::BufReader;
 use std::sync::Arc;
-use vrp_core::models::problem::{Job, JobIdDimension, Multi, VehicleIdDimension};
+use vrp_core::models::problem::{JobIdDimension, Multi, VehicleIdDimension};
 use vrp_core::models::{Problem as CoreProblem, Solution as CoreSolution};
 use vrp_core::utils::DefaultRandom;
 use vrp_pragmatic::format::solution::read_init_solution;
@@ -13,36 +14,43 @@ use vrp_pragmatic::format::{JobTypeDimension, ShiftIndexDimension};
 use vrp_verif_harness::pragen::*;
 use vrp_verif_harness::*;
 
-fn int(f: f64) -> Value {
-    if f.fract() == 0. && f.abs() < 9.0e15 { json!(f as i64) } else if f == f64::MAX { json!("max") } else { json!({"f": f}) }
+/// time in quarter seconds (pragen scales travel times by fractions with denominator ≤ 4)
+fn q4(f: f64, exact: &mut bool) -> Value {
+    let x = f * 4.;
+    if x.fract() == 0. && x.abs() < 9.0e15 {
+        json!(x as i64)
+    } else {
+        *exact = false;
+        json!(null)
+    }
 }
 
-/// job activities of a core solution: per route (vehicle id, shift index) the activities that carry a job
-pub fn extract(solution: &CoreSolution) -> Value {
+/// the core solution: per route all activities (start, jobs, end) and the unassigned job ids
+pub fn trace(solution: &CoreSolution, exact: &mut bool) -> Value {
     let mut tours = vec![];
     for route in solution.routes.iter() {
         let dimens = &route.actor.vehicle.dimens;
         let mut acts = vec![];
-        for a in route.tour.all_activities() {
-            let Some(single) = a.job.as_ref() else { continue };
-            let job = a.retrieve_job().unwrap();
-            let job_id = job.dimens().get_job_id().cloned().unwrap_or_default();
-            let task = match Multi::roots(single) {
-                Some(multi) => multi.jobs.iter().position(|s| Arc::ptr_eq(s, single)).map(|i| i as i64).unwrap_or(-1),
-                None => 0,
+        for (idx, a) in route.tour.all_activities().enumerate() {
+            let (job_id, kind, task) = match a.job.as_ref() {
+                Some(single) => {
+                    let job = a.retrieve_job().unwrap();
+                    let task = match Multi::roots(single) {
+                        Some(multi) => multi.jobs.iter().position(|s| Arc::ptr_eq(s, single)).unwrap_or(usize::MAX),
+                        None => 0,
+                    };
+                    (
+                        job.dimens().get_job_id().cloned().unwrap_or_default(),
+                        single.dimens.get_job_type().cloned().unwrap_or_default(),
+                        task,
+                    )
+                }
+                None => (String::new(), if idx == 0 { "departure".to_string() } else { "arrival".to_string() }, 0),
             };
             acts.push(json!({
-                "job": job_id,
-                "type": single.dimens.get_job_type().cloned().unwrap_or_default(),
-                "bound": single.dimens.get_vehicle_id().is_some(),
-                "task": task,
-                "place": a.place.idx,
-                "loc": a.place.location,
-                "arr": int(a.schedule.arrival),
-                "dep": int(a.schedule.departure),
-                "tws": int(a.place.time.start),
-                "twe": int(a.place.time.end),
-                "dur": int(a.place.duration),
+                "job": job_id, "kind": kind, "task": task, "place": a.place.idx, "loc": a.place.location,
+                "arr": q4(a.schedule.arrival, exact), "dep": q4(a.schedule.departure, exact),
+                "tws": q4(a.place.time.start, exact), "dur": q4(a.place.duration, exact),
             }));
         }
         tours.push(json!({
@@ -51,23 +59,99 @@ pub fn extract(solution: &CoreSolution) -> Value {
             "acts": acts,
         }));
     }
-    let mut unassigned: Vec<String> = solution
-        .unassigned
+    let unassigned: Vec<String> =
+        solution.unassigned.iter().map(|(job, _)| job.dimens().get_job_id().cloned().unwrap_or_default()).collect();
+    json!({"tours": tours, "unassigned": unassigned})
+}
+
+/// what `read_init_solution` rebuilt: job activities per route; unassigned ids split into customer jobs and
+/// vehicle-bound marker jobs (a vehicle-bound single has a vehicle id dimension), each sorted
+pub fn reread(solution: &CoreSolution) -> Value {
+    let mut tours = vec![];
+    for route in solution.routes.iter() {
+        let dimens = &route.actor.vehicle.dimens;
+        let mut acts = vec![];
+        for a in route.tour.all_activities() {
+            let Some(single) = a.job.as_ref() else { continue };
+            let job = a.retrieve_job().unwrap();
+            let task = match Multi::roots(single) {
+                Some(multi) => multi.jobs.iter().position(|s| Arc::ptr_eq(s, single)).unwrap_or(usize::MAX),
+                None => 0,
+            };
+            acts.push(json!({"job": job.dimens().get_job_id().cloned().unwrap_or_default(), "task": task,
+                             "place": a.place.idx, "loc": a.place.location}));
+        }
+        tours.push(json!({
+            "vehicle": dimens.get_vehicle_id().cloned().unwrap_or_default(),
+            "shift": dimens.get_shift_index().copied().unwrap_or_default(),
+            "acts": acts,
+        }));
+    }
+    let ids = |bound: bool| -> Vec<String> {
+        let mut v: Vec<String> = solution
+            .unassigned
+            .iter()
+            .filter(|(job, _)| job.dimens().get_vehicle_id().is_some() == bound)
+            .map(|(job, _)| job.dimens().get_job_id().cloned().unwrap_or_default())
+            .collect();
+        v.sort();
+        v
+    };
+    json!({"tours": tours, "unassigned": ids(false), "unused_bound": ids(true)})
+}
+
+/// the modelled part of the written document: stops with their activities, written unassigned ids
+fn written(sol_json: &Value) -> Value {
+    let s = simplify_solution(sol_json);
+    let tours: Vec<Value> = s["tours"]
+        .as_array()
+        .unwrap()
         .iter()
-        .filter(|(job, _)| job.dimens().get_vehicle_id().is_none())
-        .map(|(job, _)| job.dimens().get_job_id().cloned().unwrap_or_default())
+        .map(|t| {
+            let stops: Vec<Value> = t["stops"]
+                .as_array()
+                .unwrap()
+                .iter()
+                .map(|st| {
+                    let acts: Vec<Value> = st["activities"]
+                        .as_array()
+                        .unwrap()
+                        .iter()
+                        .map(|a| {
+                            json!({"jobId": a["jobId"], "type": a["type"], "loc": a.get("loc").cloned().unwrap_or(Value::Null),
+                                   "time": if a.get("start").is_some() { json!([a["start"], a["end"]]) } else { Value::Null },
+                                   "tag": a.get("tag").cloned().unwrap_or(Value::Null)})
+                        })
+                        .collect();
+                    json!({"loc": st.get("loc").cloned().unwrap_or(Value::Null), "arrival": st["arrival"],
+                           "departure": st["departure"], "acts": acts})
+                })
+                .collect();
+            json!({"vehicle": t["vehicleId"], "shift": t["shiftIndex"], "stops": stops})
+        })
         .collect();
-    unassigned.sort();
-    // vehicle-bound marker jobs (breaks, reloads) left unassigned: reported separately, not part of the property
-    let mut unused_bound: Vec<String> = solution
-        .unassigned
-        .iter()
-        .filter(|(job, _)| job.dimens().get_vehicle_id().is_some())
-        .map(|(job, _)| job.dimens().get_job_id().cloned().unwrap_or_default())
-        .collect();
-    unused_bound.sort();
-    let _ = Job::Single;
-    json!({"tours": tours, "unassigned": unassigned, "unused_bound": unused_bound})
+    let unassigned: Vec<Value> = s["unassigned"].as_array().unwrap().iter().map(|u| u["jobId"].clone()).collect();
+    json!({"tours": tours, "unassigned": unassigned})
+}
+
+fn err_class(e: &str) -> String {
+    for (prefix, class) in [
+        ("cannot match job", "cannotMatchJob"),
+        ("potential double assignment", "doubleAssignment"),
+        ("cannot match '", "cannotMatchBound"),
+        ("unknown job id", "unknownJob"),
+        ("cannot check multi job", "multiTags"),
+        ("unknown activity type", "unknownType"),
+        ("transit property", "transit"),
+        ("commute property", "commute"),
+        ("cannot get job id for", "unknownUnassigned"),
+        ("empty tour", "emptyTour"),
+    ] {
+        if e.starts_with(prefix) {
+            return class.to_string();
+        }
+    }
+    format!("other: {e}")
 }
 
 pub fn read_back(problem: Arc<CoreProblem>, solution_json: &Value) -> Result<CoreSolution, String> {
@@ -75,8 +159,8 @@ pub fn read_back(problem: Arc<CoreProblem>, solution_json: &Value) -> Result<Cor
     read_init_solution(BufReader::new(text.as_bytes()), problem, Arc::new(DefaultRandom::default())).map_err(|e| e.to_string())
 }
 
-fn run(sp: SProblem, gens: usize) -> Value {
-    let problem = match sp.read() {
+fn run(problem: Result<Arc<CoreProblem>, Vec<String>>, gens: usize) -> Value {
+    let problem = match problem {
         Ok(p) => p,
         Err(codes) => return json!({"invalid": codes}),
     };
@@ -84,31 +168,96 @@ fn run(sp: SProblem, gens: usize) -> Value {
         Ok(x) => x,
         Err(e) => return json!({"solve_error": e}),
     };
-    let orig = extract(&solution);
-    let written = simplify_solution(&sol_json);
-    match read_back(problem, &sol_json) {
-        Ok(s2) => json!({"orig": orig, "written": written, "init_read_ok": true, "reread": extract(&s2)}),
-        Err(e) => json!({"orig": orig, "written": written, "init_read_ok": false, "error": e}),
+    let mut exact = true;
+    let tr = trace(&solution, &mut exact);
+    if !exact {
+        return json!({"inexact": true});
+    }
+    let rr = match read_back(problem, &sol_json) {
+        Ok(s2) => json!({"ok": reread(&s2)}),
+        Err(e) => json!({"err": err_class(&e)}),
+    };
+    json!({"trace": tr, "written": written(&sol_json), "init_read_ok": rr.get("ok").is_some(), "reread": rr})
+}
+
+/// hypothesis of the round trip (the reader's own error message asks for it): the vehicle-bound jobs of one
+/// shift carry distinct tags
+fn distinct_reload_tags(sp: &mut SProblem) {
+    for v in sp.vehicles.iter_mut() {
+        for s in v.shifts.iter_mut() {
+            if s.reloads.len() > 1 {
+                for (i, r) in s.reloads.iter_mut().enumerate() {
+                    r.tag = Some(format!("rl{i}"));
+                }
+            }
+        }
     }
 }
 
 pub fn gen_cases(rng: &mut Rng, tier: Tier, cases: &mut Vec<Value>) {
-    let n = if tier == Tier::Thorough { 1500 } else { 60 };
-    for _ in 0..n {
+    let n = if tier == Tier::Thorough { 2500 } else { 110 };
+    for i in 0..n {
         let mut cfg = GenCfg::random(rng);
         cfg.jobs = (3, 10);
-        let sp = gen_problem(rng, &cfg);
-        cases.push(json!({"k": "init", "sp": sp, "gens": rng.usize(5, 40)}));
+        if i % 3 == 0 {
+            // the shapes the matcher has to tell apart
+            cfg.alt_places = true;
+            cfg.multi_jobs = true;
+            cfg.tags = true;
+            cfg.reloads = i % 2 == 0;
+            cfg.breaks = i % 4 == 0;
+        }
+        let mut sp = gen_problem(rng, &cfg);
+        let mut mode = "plain";
+        if i % 10 == 9 {
+            // out of the hypotheses: alternative places that cannot be told apart (same location, same tag,
+            // no windows) — the model must predict what the reader does with them
+            mode = "ambiguous";
+            for j in sp.jobs.iter_mut() {
+                for t in j.tasks.iter_mut() {
+                    if t.places.len() == 1 && rng.chance(1, 2) {
+                        let mut p = t.places[0].clone();
+                        p.dur += 5;
+                        if rng.chance(1, 2) {
+                            p.tws = vec![];
+                        }
+                        t.places.insert(rng.usize(0, 1), p);
+                    }
+                }
+            }
+        } else if i % 10 == 8 {
+            mode = "same-reloads";
+        } else {
+            distinct_reload_tags(&mut sp);
+            // alternative places at one location are told apart by their tags
+            for j in sp.jobs.iter_mut() {
+                for t in j.tasks.iter_mut() {
+                    if t.places.len() == 2 && rng.chance(1, 2) {
+                        t.places[1].loc = t.places[0].loc;
+                    }
+                }
+            }
+        }
+        cases.push(json!({"k": "init", "mode": mode, "sp": sp, "gens": rng.usize(5, 40)}));
     }
 }
 
 pub fn exec(case: &Value) -> Value {
-    let sp: SProblem = match serde_json::from_value(case["sp"].clone()) {
-        Ok(sp) => sp,
-        Err(e) => return json!({"error": format!("bad sp: {e}")}),
-    };
     let gens = case["gens"].as_u64().unwrap_or(20) as usize;
-    match isolated(1, move || run(sp, gens)) {
+    let case = case.clone();
+    let r = isolated(1, move || {
+        if case.get("sp").is_some() {
+            match serde_json::from_value::<SProblem>(case["sp"].clone()) {
+                Ok(sp) => run(sp.read(), gens),
+                Err(e) => json!({"error": format!("bad sp: {e}")}),
+            }
+        } else {
+            // raw pragmatic documents (required breaks are not expressible in the pragen form)
+            let ms: Vec<Value> = case["matrices"].as_array().cloned().unwrap_or_default();
+            run(read_pragmatic_json(&case["problem"], &ms), gens)
+        }
+    });
+    match r {
         Ok(v) => v,
         Err(e) => {
             let msg = e.downcast_ref::<String>().cloned().or_else(|| e.downcast_ref::<&str>().map(|s| s.to_string())).unwrap_or_default();
